@@ -7,6 +7,7 @@ pub mod c03;
 pub mod c04;
 pub mod c05;
 pub mod c06;
+pub mod c07;
 pub mod c17;
 
 macro_rules! props {
@@ -40,5 +41,6 @@ props! {
     "C04" => c04::C04,
     "C05" => c05::C05,
     "C06" => c06::C06,
+    "C07" => c07::C07,
     "C17" => c17::C17,
 }
